@@ -120,7 +120,7 @@ class Check:
     # ------------------------------------------------------------ the common S->C pipeline
     def machine_family(self, name, scns, opts=None, spec="YP", cfg="YP.cfg", max_steps=None,
                        props=("CleanAfterEnd", "FactIdsUnique", "FactsWellKeyed", "BarriersOK", "SnapshotsOK"),
-                       features=None, workers=16, post=None):
+                       features=None, workers=16, post=None, opts_list=None):
         """scns: list of scenario dicts (ids are assigned here).  TLC explores every behaviour
         of every scenario and prints it with the predicted observations; each behaviour is
         replayed on the real code."""
@@ -139,7 +139,7 @@ class Check:
             os.unlink(fn)
         self.add_tlc(res, props)
         recs = res.records
-        items = [(scns[r["id"] - 1], r, opts) for r in recs]
+        items = [(scns[r["id"] - 1], r, o) for r in recs for o in (opts_list or [opts])]
         results = replay.replay_all(items)
         fam = {"family": name, "scenarios": len(scns), "behaviours": len(recs), "tlc_states": res.distinct,
                "tlc_s": round(res.wall, 1), "ok": 0, "truncated": 0, "violating": 0}
@@ -167,6 +167,7 @@ class Check:
             v["family"] = name
             v["scenario"] = scn
             v["record"] = rec
+            v["opts"] = _
             feats = {"op": r.get("op", {}).get("op"), "family": name}
             feats.update(_goal_shape(r.get("op", {})))
             if features:
